@@ -201,6 +201,9 @@ class Engine:
         v = self.truth(t, p)
         if v is not None:
             return [(v, p)]
+        if isinstance(t, tuple) and len(t) == 2 and t[0] == "not":
+            # `flag = not a == b; if flag:` - the assumption is recorded on the atom, not on its negation
+            return [(not tv, q) for tv, q in self.branch(t[1], p)]
         self.fork_count += 1
         return [(True, p.with_assume(t, True)), (False, p.with_assume(t, False))]
 
